@@ -13,7 +13,7 @@ FUNCTIONS = ["wannierberri.utility.select_window_degen", "wannierberri.utility.f
              "wannierberri.calculators.tabulate.Tabulator.__call__", "wannierberri.result.kbandresult.KBandResult"]
 BOUNDS = dict(quick=dict(nb="2..5 (window selection), 2..5 (borders), 2..4 (tabulator)", energies="symbolic sorted reals",
                          thresholds="symbolic > 0", window="symbolic win_min <= win_max, also the +-inf defaults"),
-              thorough=dict(nb="2..7 (window selection), 2..7 (borders), 2..5 (tabulator)", energies="symbolic sorted reals",
+              thorough=dict(nb="2..8 (window selection, borders; infinite window edges up to 6), 2..6 (sea groups, in_range, tabulator)", energies="symbolic sorted reals",
                             thresholds="symbolic > 0", window="symbolic"))
 EXPLANATION = ("The real functions run on object arrays of symbolic band energies; every comparison forks the path explorer, so each feasible "
                "pattern of gaps / window positions is one path, and on it the returned selection/grouping is compared with the specification "
@@ -276,7 +276,7 @@ def case_sea_groups(rec, nb, kramers):
 
 def cases(tier, seed):
     out = []
-    nmax = 5 if tier == "quick" else 7
+    nmax = 5 if tier == "quick" else 8
     for nb in range(2, nmax + 1):
         for include in (False, True):
             for indices in (False, True):
@@ -288,11 +288,11 @@ def cases(tier, seed):
             if kr and nb % 2:
                 continue   # Kramers grouping is only meaningful for an even number of bands
             out.append(Case(f"borders nb={nb} kramers={kr}", case_borders, dict(nb=nb, kramers=kr)))
-    for nb in (3, 4):
+    for nb in ((3, 4) if tier == "quick" else (3, 4, 5, 6)):
         for include in (False, True):
             out.append(Case(f"window nb={nb} include={include} win_min=-inf", case_window, dict(nb=nb, include=include, indices=False, inf_min=True)))
             out.append(Case(f"window nb={nb} include={include} win_max=+inf", case_window, dict(nb=nb, include=include, indices=False, inf_max=True)))
-    for nb in range(2, (4 if tier == "quick" else 5) + 1):
+    for nb in range(2, (4 if tier == "quick" else 6) + 1):
         for kr in (False, True):
             if kr and nb % 2:
                 continue
